@@ -55,6 +55,7 @@ class Verifier:
         self.spec_module_cache = {}
         self.modular = {}
         self.world.contract_hook = self.call_hook
+        self.world.verifier = self
         for c in contracts or []:
             self.register_modular(c)
 
